@@ -50,7 +50,7 @@ spec fn hi_of(l: Seq<Value>, lo: int) -> int { if l.len() > 0 { l.last().end as 
 spec fn shape_ok(l: Seq<Value>, d: Seq<nat>, lo: int, n: nat) -> bool {
     &&& d.len() == l.len()
     &&& forall|i: int| 0 <= i < l.len() ==> lo <= (#[trigger] l[i]).start <= l[i].end && l[i].start < u32::MAX
-    &&& forall|i: int| 0 <= i < l.len() - 1 ==> (#[trigger] l[i]).end == l[i + 1].start
+    &&& forall|i: int, j: int| 0 <= i && j == i + 1 && j < l.len() ==> (#[trigger] l[i]).end == (#[trigger] l[j]).start
     &&& (l.len() > 0 ==> l[0].start == lo)
     &&& forall|i: int| 0 <= i < l.len() ==> 1 <= #[trigger] d[i] <= n && l[i].value == f32_of_nat(d[i])
 }
@@ -89,7 +89,7 @@ spec fn piece_depth(pc: Piece, ents: Seq<(u32, u32)>) -> bool {
 /// pieces tile [a, b) left to right, each with its exact depth (zero-length pieces are possible)
 spec fn pieces_ok(ps: Seq<Piece>, a: int, b: int, ents: Seq<(u32, u32)>) -> bool {
     &&& forall|k: int| 0 <= k < ps.len() ==> (#[trigger] ps[k]).s <= ps[k].e && ps[k].d >= 1 && piece_depth(ps[k], ents)
-    &&& forall|k: int| 0 <= k < ps.len() - 1 ==> (#[trigger] ps[k]).e == ps[k + 1].s
+    &&& forall|k: int, j: int| 0 <= k && j == k + 1 && j < ps.len() ==> (#[trigger] ps[k]).e == (#[trigger] ps[j]).s
     &&& (ps.len() > 0 ==> ps[0].s == a && ps.last().e == b)
     &&& (ps.len() == 0 ==> a == b)
 }
@@ -158,7 +158,7 @@ proof fn lemma_sweep_nosplit(l: Seq<Value>, d: Seq<nat>, k: int, s: u32, e: u32,
     assert forall|i: int| 0 <= i < l2.len() implies (s as int) <= (#[trigger] l2[i]).start <= l2[i].end && l2[i].start < u32::MAX by {
         if i != k { assert(l2[i] == l[i]); } else { let _ = l[k]; }
     }
-    assert forall|i: int| 0 <= i < l2.len() - 1 implies (#[trigger] l2[i]).end == l2[i + 1].start by {
+    assert forall|i: int, j: int| 0 <= i && j == i + 1 && j < l2.len() implies (#[trigger] l2[i]).end == (#[trigger] l2[j]).start by {
         let _ = l[i]; let _ = l[i + 1];
     }
     assert forall|i: int| 0 <= i < l2.len() implies 1 <= #[trigger] d2[i] <= ents.len() + 1 && l2[i].value == f32_of_nat(d2[i]) by {
@@ -198,7 +198,7 @@ proof fn lemma_sweep_split(l: Seq<Value>, d: Seq<nat>, k: int, s: u32, e: u32, e
     assert forall|i: int| 0 <= i < l2.len() implies (s as int) <= (#[trigger] l2[i]).start <= l2[i].end && l2[i].start < u32::MAX by {
         if i < k { let _ = l[i]; } else if i > k + 1 { let _ = l[i - 1]; }
     }
-    assert forall|i: int| 0 <= i < l2.len() - 1 implies (#[trigger] l2[i]).end == l2[i + 1].start by {
+    assert forall|i: int, j: int| 0 <= i && j == i + 1 && j < l2.len() implies (#[trigger] l2[i]).end == (#[trigger] l2[j]).start by {
         if i < k { let _ = l[i]; let _ = l[i + 1]; } else if i > k { let _ = l[i - 1]; let _ = l[i]; if i == k + 1 { assert(l[k].end == l[k + 1].start); } }
     }
     assert forall|i: int| 0 <= i < l2.len() implies 1 <= #[trigger] d2[i] <= ents.len() + 1 && l2[i].value == f32_of_nat(d2[i]) by {
@@ -257,7 +257,7 @@ proof fn lemma_tail_push(l: Seq<Value>, d: Seq<nat>, s: u32, e: u32, ents: Seq<(
     assert forall|i: int| 0 <= i < l2.len() implies (s as int) <= (#[trigger] l2[i]).start <= l2[i].end && l2[i].start < u32::MAX by {
         if i < l.len() { assert(l2[i] == l[i]); } else { if l.len() > 0 { let _ = l[l.len() - 1]; } }
     }
-    assert forall|i: int| 0 <= i < l2.len() - 1 implies (#[trigger] l2[i]).end == l2[i + 1].start by {
+    assert forall|i: int, j: int| 0 <= i && j == i + 1 && j < l2.len() implies (#[trigger] l2[i]).end == (#[trigger] l2[j]).start by {
         assert(l2[i] == l[i]);
         if i + 1 < l.len() { assert(l2[i + 1] == l[i + 1]); }
     }
@@ -306,7 +306,7 @@ proof fn lemma_flush_whole(l: Seq<Value>, d: Seq<nat>, lo: int, ents: Seq<(u32, 
         assert(l2[i] == l[i + 1]);
         if i > 0 { lemma_sorted(l, d, lo, ents.len(), 0, i + 1); } else { assert(l[0].end == l[1].start); }
     }
-    assert forall|i: int| 0 <= i < l2.len() - 1 implies (#[trigger] l2[i]).end == l2[i + 1].start by {
+    assert forall|i: int, j: int| 0 <= i && j == i + 1 && j < l2.len() implies (#[trigger] l2[i]).end == (#[trigger] l2[j]).start by {
         assert(l2[i] == l[i + 1]); assert(l2[i + 1] == l[i + 2]);
     }
     assert forall|i: int| 0 <= i < l2.len() implies 1 <= #[trigger] d2[i] <= ents.len() && l2[i].value == f32_of_nat(d2[i]) by {
@@ -332,7 +332,7 @@ proof fn lemma_flush_part(l: Seq<Value>, d: Seq<nat>, lo: int, ents: Seq<(u32, u
     assert forall|i: int| 0 <= i < l2.len() implies (n as int) <= (#[trigger] l2[i]).start <= l2[i].end && l2[i].start < u32::MAX by {
         if i > 0 { lemma_sorted(l, d, lo, ents.len(), 0, i); let _ = l[i]; }
     }
-    assert forall|i: int| 0 <= i < l2.len() - 1 implies (#[trigger] l2[i]).end == l2[i + 1].start by {
+    assert forall|i: int, j: int| 0 <= i && j == i + 1 && j < l2.len() implies (#[trigger] l2[i]).end == (#[trigger] l2[j]).start by {
         let _ = l[i]; let _ = l[i + 1];
     }
     assert forall|i: int| 0 <= i < l2.len() implies 1 <= #[trigger] d[i] <= ents.len() && l2[i].value == f32_of_nat(d[i]) by {
@@ -352,7 +352,7 @@ proof fn lemma_pieces_push(ps: Seq<Piece>, a: int, b: int, pc: Piece, ents: Seq<
     assert forall|k: int| 0 <= k < p2.len() implies (#[trigger] p2[k]).s <= p2[k].e && p2[k].d >= 1 && piece_depth(p2[k], ents) by {
         if k < ps.len() { assert(p2[k] == ps[k]); }
     }
-    assert forall|k: int| 0 <= k < p2.len() - 1 implies (#[trigger] p2[k]).e == p2[k + 1].s by {
+    assert forall|k: int, j: int| 0 <= k && j == k + 1 && j < p2.len() implies (#[trigger] p2[k]).e == (#[trigger] p2[j]).s by {
         assert(p2[k] == ps[k]);
         if k + 1 < ps.len() { assert(p2[k + 1] == ps[k + 1]); }
     }
